@@ -13,6 +13,7 @@
 From Coq Require Import List NArith Bool.
 Import ListNotations.
 Require Import Parser Resolver Loader.
+Local Open Scope nat_scope.
 
 (* ---------- (1) nesting depth of events ---------- *)
 (* (collections currently open, maximum so far) *)
@@ -132,7 +133,7 @@ Definition sp0 : span := span_empty mk00.
 Definition tk (t : tok) : token := (sp0, t).
 Definition leaf_text : str := [97%N].                      (* "a" *)
 Definition leaf_tok : tok := TScalar Plain leaf_text.
-Definition leaf_ev : event := EScalar leaf_text Plain 0 None.
+Definition leaf_ev : event := EScalar leaf_text Plain 0%N None.
 
 (* tokens of a node nested n times, as head and tail (the parser always holds the head in its cache) *)
 Definition nhd (n : nat) : token := match n with O => tk leaf_tok | S _ => tk TBlockSequenceStart end.
@@ -151,7 +152,7 @@ Definition seq_tokens_flat (d : nat) : list token :=
 Fixpoint node_evs (n : nat) : list event :=
   match n with
   | O => [leaf_ev]
-  | S k => ESequenceStart 0 None :: node_evs k ++ [ESequenceEnd]
+  | S k => ESequenceStart 0%N None :: node_evs k ++ [ESequenceEnd]
   end.
 Definition seq_events (d : nat) : list event :=
   EStreamStart :: EDocumentStart false :: node_evs d ++ [EDocumentEnd; EStreamEnd].
